@@ -108,13 +108,27 @@ func (r *Reader) StrRaw() ([]byte, error) {
 	if err != nil {
 		return nil, errors.Wrap(err, "read length")
 	}
-	r.b.Ensure(n)
-	if _, err := io.ReadFull(r.data, r.b.Buf); err != nil {
-		return nil, errors.Wrap(err, "read str")
+	// The length comes from the wire and may be corrupted or hostile: never
+	// allocate more than maxStrPrealloc bytes ahead of the data actually read.
+	r.b.Buf = r.b.Buf[:0]
+	for len(r.b.Buf) < n {
+		start := len(r.b.Buf)
+		chunk := n - start
+		if chunk > maxStrPrealloc {
+			chunk = maxStrPrealloc
+		}
+		r.b.Buf = append(r.b.Buf, make([]byte, chunk)...)
+		if _, err := io.ReadFull(r.data, r.b.Buf[start:]); err != nil {
+			return nil, errors.Wrap(err, "read str")
+		}
 	}
 
 	return r.b.Buf, nil
 }
+
+// maxStrPrealloc is the maximum number of bytes allocated for string data
+// before that data is read.
+const maxStrPrealloc = 1 << 20
 
 // StrAppend decodes string and appends it to provided buf.
 func (r *Reader) StrAppend(buf []byte) ([]byte, error) {
